@@ -6,6 +6,7 @@ import ast
 from ..astq import arg, const, ext_names, handler_classes, inside, is_name, loc, names_in, stmt_of
 from ..cfg import CFG, any_call_may_raise
 from ..model import AnalysisError, Func, head, norm
+from . import roles
 from . import engine as E
 from . import runrules as R
 from .common import make_user_reaching
@@ -101,8 +102,8 @@ def check(ctx):
                     (isinstance(c.func, ast.Attribute) and pv in names_in(c.func.value))
                 if not touches:
                     continue
-                fs = {f.name for f in m.callee_funcs(host, c)}
-                okc = fs <= {"get_mutable_plan"} and bool(fs)
+                fs = m.callee_funcs(host, c)
+                okc = bool(fs) and all(roles.is_mutable_plan_func(m, f_) for f_ in fs)
                 ctx.ob("C15.P5", f"{host.short}/plan-unchanged-after-totals", okc, loc(host, c),
                        "only a copy of the plan is taken between totals and the phase" if okc else
                        f"the plan is transformed by `{norm(c.func)}` after its totals were announced: the {what} examines a different set of calls than was announced",
@@ -112,7 +113,9 @@ def check(ctx):
     # execution phase: only source literals are removed before running
     prep = rr.prep_run
     tcs = [c for c in prep.own_calls() if any(f.module.name.endswith(("pruning", "caching")) for f in m.callee_funcs(prep, c))]
-    okp = all({f.name for f in m.callee_funcs(prep, c)} <= {"prune_source_literals"} for c in tcs)
+    from .prunerules import litprune_role
+    lp_ = litprune_role(m, rr)
+    okp = all(m.callee_funcs(prep, c) <= {lp_} for c in tcs)
     ctx.ob("C15.P5", f"{prep.short}/literal-only-transformations", okp, loc(prep), "execution preparation removes source literals only (the set of Call nodes is unchanged)"
            if okp else "execution preparation transforms the plan beyond removing source literals")
     # ---------------------------------------------------------------- P3 / P4
@@ -193,7 +196,7 @@ def check(ctx):
     ctx.run(E.rule_one_callback_per_dequeue, "C15.P3", er)
     # ---------------------------------------------------------------- P6
     po = m.one_class("ProgressObserver", "OBSERVER-API")
-    comp = m.one_class("CompositeProgressObserver", "COMPOSITE")
+    comp = roles.composite_observer(m)
     abstract = [n for n in po.methods if po.is_abstract_method(n)]
     ctx.floor("C15.P6", "abstract methods of ProgressObserver", len(abstract), 6)
     for name in abstract:
